@@ -4,6 +4,7 @@ R06.1 only accept_established_connection grows the counted sets, by direction; i
 R06.2 release on close: limits.on_connection_closed removes from both sets; the manager calls it on every path
 R06.3 limit comparisons: refuse exactly when len >= max (safety and tightness), per direction
 R06.4 protocol side keeps at most two handles per peer (TransportService::on_connection_established)
+R06.6 PeerState::on_connection_established never accepts a third connection; on_connection_closed answers true iff the peer became Disconnected
 R06.5 every Accept exit of the manager counted the connection
 """
 import re
@@ -210,8 +211,59 @@ def r06_5(ctx, fx):
            detail="Accept exits reachable without accept_established_connection: %s" % [fn.site(n) for n in bad])
 
 
+PSM = "transport::manager::peer_state::PeerState::"
+
+
+def _self_writes(fn):
+    out = []
+    for n, st in fn.assigns():
+        if st["lhs"][:2] == [1, "*"] and len(st["lhs"]) == 2:
+            sh = fn.shape(st["rv"]["o"]) if st["rv"]["r"] == "use" else {st["rv"].get("var", "?")}
+            out.append((n, sh))
+    return out
+
+
+def r06_6(ctx, fx):
+    """manager-side two-per-peer shape rules read off PeerState::on_connection_established / on_connection_closed"""
+    fn = ctx.fn(fx, PSM + "on_connection_established", "R06.6")
+    if fn is not None:
+        wr = _self_writes(fn)
+        trues = [n for n, sh in fn.ret_sites() if sh == {"const:1"}]
+        ctx.anchor("R06.6", "on_connection_established: writes of *self / true exits", min(len(wr), len(trues)), 5, cfg=fx.cfg)
+        ctx.ob("R06.6", "PeerState::on_connection_established/true-implies-Connected-written", bool(trues) and all(n not in fn.reach([fn.entry], avoid=[w for w, _ in wr]) for n in trues)
+               and all(all(x.startswith("Connected") for x in sh) for _, sh in wr), site=fn.site(fn.entry), cfg=fx.cfg, detail=str(sorted({x for _, sh in wr for x in sh}))[:200])
+        ssw = [sw for sw in fn.discr_switches() if sw[2] and sw[2].endswith("SecondaryOrDialing")]
+        ctx.anchor("R06.6", "on_connection_established: match on the secondary slot", len(ssw), 1, cfg=fx.cfg)
+        bad = []
+        for sw in ssw:
+            e = fn.variant_edges(sw, "Secondary")
+            if set(e) & set(fn.variant_edges(sw, "Dialing")):
+                # shared (otherwise) edge: the Dialing case must have been split off before
+                pass
+            r = fn.reach([n for n, l in fn.succs(sw[0]) if l in e and l not in fn.variant_edges(sw, "Dialing")])
+            bad += [fn.site(n) for n in trues if n in r]
+        ctx.ob("R06.6", "PeerState::on_connection_established/third-connection-never-accepted", not bad, site=fn.site(fn.entry), cfg=fx.cfg,
+               detail="`true` exits reachable with an established secondary connection already stored: %s" % bad)
+    fn = ctx.fn(fx, PSM + "on_connection_closed", "R06.6")
+    if fn is not None:
+        wr = _self_writes(fn)
+        dis = [n for n, sh in wr if all(x.startswith("Disconnected") for x in sh)]
+        con = [n for n, sh in wr if all(x.startswith("Connected") for x in sh)]
+        trues = [n for n, sh in fn.ret_sites() if sh == {"const:1"}]
+        falses = [n for n, sh in fn.ret_sites() if sh == {"const:0"}]
+        ctx.anchor("R06.6", "on_connection_closed: Disconnected / Connected writes", min(len(dis), len(con)), 2, cfg=fx.cfg)
+        ctx.ob("R06.6", "PeerState::on_connection_closed/true-iff-became-Disconnected", bool(trues) and all(n not in fn.reach([fn.entry], avoid=dis) for n in trues)
+               and not any(f in fn.reach(dis, after=True) for f in falses), site=fn.site(fn.entry), cfg=fx.cfg,
+               detail="`true` (peer disconnected, capacity released, event emitted) exactly on the paths that write Disconnected")
+        ctx.ob("R06.6", "PeerState::on_connection_closed/promotion-or-secondary-close-keeps-peer-connected", bool(con) and not any(t in fn.reach(con, after=True) for t in trues), site=fn.site(fn.entry), cfg=fx.cfg)
+        eqs = [c for c in fn.calls(r"::eq$")]
+        tests = [t for c in eqs for t in fn.bool_tests(c.dest[0])]
+        ctx.ob("R06.6", "PeerState::on_connection_closed/state-changes-only-for-a-matching-connection-id", bool(tests) and all(any(fn.only_via(w, sw, [t]) for sw, t, f in tests) for w, _ in wr), site=fn.site(fn.entry), cfg=fx.cfg)
+
+
 def run(ctx):
     fx = ctx.facts("default")
+    r06_6(ctx, fx)
     r06_1(ctx, fx)
     r06_2(ctx, fx)
     r06_3(ctx, fx)
